@@ -6,7 +6,8 @@ Emits lean/Operon/Gen/LysosomeLocks.lean:
                                                      self-method call, `cb` for an indirect / foreign callback call),
                                                      callees before callers so `call j` always points backwards
   tableMethods    self-methods that are *referenced* without being called (stored in the digester table):
-                  these are what a `cb` may run besides foreign code
+                  these are what a `cb` may run besides foreign code; plus, when the caller evaluated the class, the
+                  methods a fresh object really stores in `_digesters` (a table built from names is seen too)
   unlockedWrites  per public method: shared fields written while the lock is not held (transitively)
   lockedWrites    per public method: shared fields written while the lock is held (transitively)
   recognised      false when the extractor met a shape it does not understand (explicit acquire()/release(),
@@ -293,10 +294,20 @@ def render(facts: dict) -> str:
     return "\n".join(out) + "\n"
 
 
-def extract(repo: Path) -> tuple[str, dict]:
+def extract(repo: Path, table_by_value=None) -> tuple[str, dict]:
+    """`table_by_value`: names of the methods a freshly constructed object really stores in its digester table (the
+    caller evaluates the class); they join the methods the source references without calling them, so a table built
+    from names (`getattr(self, name)`) is seen as well as one written out.  An entry that is not a method of the class
+    makes the result unrecognised."""
     p = repo / "operon_ai" / "organelles" / "lysosome.py"
     try:
         facts = analyse(p.read_text())
+        if table_by_value is not None:
+            index = {n: i for i, (n, _pub, _ins) in enumerate(facts["methods"])}
+            for n in table_by_value:
+                if n not in index:
+                    raise Unrecognised(f"the digester table holds {n}, which is not a method of the class")
+            facts["table"] = sorted(set(facts["table"]) | {index[n] for n in table_by_value})
     except (Unrecognised, SyntaxError, OSError) as e:
         facts = {"kind": "unknown", "methods": [], "table": [], "locked_writes": {}, "unlocked_writes": {},
                  "recognised": False, "why": str(e)}
